@@ -168,6 +168,12 @@ HARNESSES = [
       fns=["compress_normal (whole loop on 2-3 bytes from a symbolic parser state: carried lazy match, lookahead, dictionary size, flush mode)"],
       strength="B(input 00 00 00 / 00 00 at window position 40000 over an all-zero window; complete in format, level, strategy, window bits, dictionary size, carried lazy match, flush mode, matcher results)",
       note="find_match / record_match / record_literal / flush_block replaced by contract models; ~11 min, 7.5 GB"),
+    *[H(n, "K-stored-compress", ["C01", "C02", "C08", "C09", "C10", "C16"], tier="thorough", cost=650, timeout=2400,
+        fns=["compress", "compress_inner", "compress_stored", "flush_block (stored path)", "flush_output_buffer", "CallbackOxide::flush_output", "OutputBufferOxide::put_bits", "zlib::header_from_flags"],
+        strength="B(one fresh compressor, configuration %s, one Finish call; complete in the input bytes)" % cfg,
+        note="update_adler32 replaced by a model (the checksum algorithm is not verified); window re-allocated as Box::new arrays (same all-zero state); ~10 min, 7 GB")
+      for (n, cfg) in (("k_stored_compress_end_to_end_zlib3", "zlib/default/15 bits, 3 input bytes"), ("k_stored_compress_end_to_end_raw1", "raw/Huffman-only/12 bits, 1 input byte"),
+                       ("k_stored_compress_end_to_end_zlib0", "zlib/fixed/9 bits, empty input"))],
     # ---- K-huff ----
     H("k_enforce_max_code_size_kraft", "K-huff", ["C10"], fns=["HuffmanOxide::enforce_max_code_size"], cost=50, timeout=900,
       strength="B(<= 9 codes, tree depths <= 9, limit 7; complete over every depth histogram of a full binary tree in that range)"),
